@@ -6,21 +6,523 @@ import MstVerif.Proofs.Split
 namespace Mst
 variable {K V D : Type} [LinearOrder K]
 
+/-! ### `insertKV` -/
+
+theorem insertKV_keys_mem (k : K) (v : V) : ∀ (l : List (K × V)) (x : K),
+    x ∈ (insertKV k v l).map Prod.fst → x = k ∨ x ∈ l.map Prod.fst
+  | [], x, h => by simpa [insertKV] using h
+  | (k', v') :: rest, x, h => by
+    simp only [insertKV] at h
+    split_ifs at h with h1 h2
+    · simp only [List.map_cons, List.mem_cons] at h ⊢
+      exact h
+    · simp only [List.map_cons, List.mem_cons] at h ⊢
+      rcases h with h | h
+      · exact Or.inl h
+      · exact Or.inr (Or.inr h)
+    · simp only [List.map_cons, List.mem_cons] at h ⊢
+      rcases h with h | h
+      · exact Or.inr (Or.inl h)
+      · rcases insertKV_keys_mem k v rest x h with h | h
+        · exact Or.inl h
+        · exact Or.inr (Or.inr h)
+
 /-- `insertKV` keeps a strictly ascending key list strictly ascending. -/
 theorem insertKV_sorted (k : K) (v : V) (l : List (K × V))
     (h : (l.map Prod.fst).Pairwise (· < ·)) :
     ((insertKV k v l).map Prod.fst).Pairwise (· < ·) := by
-  sorry
+  induction l with
+  | nil => simp [insertKV]
+  | cons hd rest ih =>
+    obtain ⟨k', v'⟩ := hd
+    simp only [List.map_cons, List.pairwise_cons] at h
+    obtain ⟨h1, h2⟩ := h
+    simp only [insertKV]
+    split_ifs with hlt heq
+    · simp only [List.map_cons, List.pairwise_cons, List.mem_cons]
+      refine ⟨?_, h1, h2⟩
+      rintro a (rfl | ha)
+      · exact hlt
+      · exact lt_trans hlt (h1 a ha)
+    · subst heq
+      simp only [List.map_cons, List.pairwise_cons]
+      exact ⟨h1, h2⟩
+    · simp only [List.map_cons, List.pairwise_cons]
+      refine ⟨?_, ih h2⟩
+      intro a ha
+      rcases insertKV_keys_mem k v rest a ha with rfl | ha
+      · exact lt_of_le_of_ne (not_lt.mp hlt) (Ne.symm heq)
+      · exact h1 a ha
+
+theorem insertKV_append_of_lt (k : K) (v : V) (l1 l2 : List (K × V))
+    (h : ∀ x ∈ l1.map Prod.fst, x < k) : insertKV k v (l1 ++ l2) = l1 ++ insertKV k v l2 := by
+  induction l1 with
+  | nil => rfl
+  | cons hd rest ih =>
+    obtain ⟨k', v'⟩ := hd
+    have hk : k' < k := h k' (by simp)
+    have ih' := ih (fun x hx => h x (by simp only [List.map_cons, List.mem_cons]; right; exact hx))
+    simp only [List.cons_append, insertKV, not_lt.mpr (le_of_lt hk), if_false, (ne_of_lt hk).symm, ih']
+
+theorem insertKV_append_of_gt (k : K) (v : V) (l1 l2 : List (K × V))
+    (h : ∀ x ∈ l2.map Prod.fst, k < x) : insertKV k v (l1 ++ l2) = insertKV k v l1 ++ l2 := by
+  induction l1 with
+  | nil =>
+    cases l2 with
+    | nil => rfl
+    | cons hd rest =>
+      obtain ⟨k', v'⟩ := hd
+      have hk : k < k' := h k' (by simp)
+      simp [insertKV, hk]
+  | cons hd rest ih =>
+    obtain ⟨k', v'⟩ := hd
+    simp only [List.cons_append, insertKV, ih]
+    split_ifs <;> rfl
+
+theorem insertKV_mid (k : K) (v : V) (l1 l2 : List (K × V))
+    (h1 : ∀ x ∈ l1.map Prod.fst, x < k) (h2 : ∀ x ∈ l2.map Prod.fst, k < x) :
+    insertKV k v (l1 ++ l2) = l1 ++ (k, v) :: l2 := by
+  rw [insertKV_append_of_lt k v l1 l2 h1]
+  have := insertKV_append_of_gt k v [] l2 h2
+  simpa [insertKV] using this
+
+/-! ### levels of stored keys -/
+
+omit [LinearOrder K] in
+mutual
+theorem LvPg_keys_lt (lvl : K → Nat) : ∀ (p : Pg K V D) (bound : Nat), LvPg lvl bound p →
+    ∀ k ∈ p.keys, lvl k < bound
+  | .none, _, _, k, hk => by simp at hk
+  | .some L c n h, bound, hlv, k, hk => by
+    simp only [LvPg] at hlv
+    simp only [Pg.keys_some, List.mem_append] at hk
+    rcases hk with hk | hk
+    · have := LvNd_keys_le lvl n L hlv.2.2.1 k hk; omega
+    · have := LvPg_keys_lt lvl h L hlv.2.2.2 k hk; omega
+theorem LvNd_keys_le (lvl : K → Nat) : ∀ (n : Nd K V D) (L : Nat), LvNd lvl L n →
+    ∀ k ∈ n.keys, lvl k ≤ L
+  | .nil, _, _, k, hk => by simp at hk
+  | .cons lt k0 v tl, L, hlv, k, hk => by
+    simp only [LvNd] at hlv
+    simp only [Nd.keys_cons, List.mem_append, List.mem_cons] at hk
+    rcases hk with hk | hk | hk
+    · have := LvPg_keys_lt lvl lt L hlv.1 k hk; omega
+    · rw [hk]; omega
+    · exact LvNd_keys_le lvl tl L hlv.2.2 k hk
+end
+
+omit [LinearOrder K] in
+theorem LvPg_not_mem (lvl : K → Nat) (p : Pg K V D) (bound : Nat) (hlv : LvPg lvl bound p)
+    (key : K) (hk : bound ≤ lvl key) : key ∉ p.keys := fun hmem => by
+  have := LvPg_keys_lt lvl p bound hlv key hmem; omega
+
+/-! ### the second split is a no-op -/
+
+theorem secondSplit_noop (lvl : K → Nat) (s1 s2 s3 : String) (L : Nat) (key : K) (x : Pg K V D)
+    (hlv : LvPg lvl L x) (hlt : ∀ k ∈ x.keys, k < key) :
+    secondSplit s1 s2 s3 L key x = .ok (x, .none) := by
+  cases x with
+  | none => rfl
+  | some Lx cx nx hx =>
+    simp only [LvPg] at hlv
+    obtain ⟨h1, h2, _, h4⟩ := hlv
+    have e1 : assertT s1 (decide (Lx < L)) = .ok () := assertT_ok (by simp [h1])
+    have e2 : assertT s2 (!nx.isNil) = .ok () := by
+      cases nx with
+      | nil => exact absurd rfl h2
+      | cons => rfl
+    have e3 := assertKeyLt_last s3 nx key h2 (fun k hk => hlt k (by simp [hk]))
+    have e4 := splitPg_all_lt lvl key Lx hx h4 (fun k hk => hlt k (by simp [hk]))
+    simp only [secondSplit, e1, e2, e3, e4]
+
+theorem splitForInsert_spec (lvl : K → Nat) (hc : HashCfg K V D) (key : K) (L : Nat)
+    (slot high : Pg K V D) (b : Bool)
+    (hlv : LvPg lvl L slot) (hs : slot.Sorted) (hne : key ∉ slot.keys) (hco : CacheOKPg hc slot) :
+    ∃ x slot', splitForInsert L key slot high b = .ok (x, slot', if b then slot' else high) ∧
+      slot.content = x.content ++ slot'.content ∧
+      (∀ k ∈ x.keys, k < key) ∧ (∀ k ∈ slot'.keys, key < k) ∧
+      LvPg lvl L x ∧ LvPg lvl L slot' ∧ CacheOKPg hc x ∧ CacheOKPg hc slot' := by
+  obtain ⟨x, slot', h1, h2, h3, h4, h5, h6, h7, h8⟩ := splitPg_spec lvl hc key L slot hlv hs hne hco
+  refine ⟨x, slot', ?_, h2, h3, h4, h5, h6, h7, h8⟩
+  have e2 := secondSplit_noop lvl "page.rs:330" "page.rs:331" "page.rs:332" L key x h5 h3
+  simp only [splitForInsert, h1, e2, attachHigh]
+
+/-! ### `upsert_node` -/
+
+theorem upsertNd_spec (lvl : K → Nat) (hc : HashCfg K V D) (key : K) (val : V) (L : Nat)
+    (hL : lvl key = L) : ∀ (n : Nd K V D) (high : Pg K V D),
+    LvNd lvl L n → LvPg lvl L high → (n.keys ++ high.keys).Pairwise (· < ·) →
+    CacheOKNd hc n → CacheOKPg hc high →
+    ∃ n' high', upsertNd L key val n high = .ok (n', high') ∧ n' ≠ .nil ∧
+      LvNd lvl L n' ∧ LvPg lvl L high' ∧
+      n'.content ++ high'.content = insertKV key val (n.content ++ high.content) ∧
+      CacheOKNd hc n' ∧ CacheOKPg hc high'
+  | .nil, high, _, hlvh, hs, _, hch => by
+    simp only [Nd.keys_nil, List.nil_append] at hs
+    obtain ⟨x, slot', h1, h2, h3, h4, h5, h6, h7, h8⟩ :=
+      splitForInsert_spec lvl hc key L high high true hlvh hs
+        (LvPg_not_mem lvl high L hlvh key (by omega)) hch
+    refine ⟨.cons x key val .nil, slot', by simp [upsertNd, h1], by simp, ?_, h6, ?_, ?_, h8⟩
+    · simp only [LvNd]; exact ⟨h5, hL, trivial⟩
+    · simp only [Nd.content, List.nil_append, h2, List.append_assoc, List.cons_append]
+      exact (insertKV_mid key val _ _ h3 h4).symm
+    · simp only [CacheOKNd]; exact ⟨h7, trivial⟩
+  | .cons lt k v tl, high, hlvn, hlvh, hs, hcn, hch => by
+    simp only [LvNd] at hlvn
+    obtain ⟨hlvlt, hlvk, hlvtl⟩ := hlvn
+    simp only [CacheOKNd] at hcn
+    obtain ⟨hclt, hctl⟩ := hcn
+    simp only [Nd.keys_cons, List.append_assoc, List.cons_append, List.pairwise_append,
+      List.pairwise_cons] at hs
+    obtain ⟨hslt, ⟨hkrest, hsrest⟩, hltall⟩ := hs
+    have hltk : ∀ k' ∈ lt.keys, k' < k := fun k' hk' => hltall k' hk' k (by simp)
+    by_cases hle : key ≤ k
+    · by_cases heq : k = key
+      · refine ⟨.cons lt k val tl, high, by simp [upsertNd, heq], by simp, ?_, hlvh, ?_, ?_,
+          hch⟩
+        · simp only [LvNd]; exact ⟨hlvlt, hlvk, hlvtl⟩
+        · subst heq
+          simp only [Nd.content, List.append_assoc, List.cons_append]
+          rw [insertKV_append_of_lt k val _ _ hltk]
+          simp [insertKV]
+        · simp only [CacheOKNd]; exact ⟨hclt, hctl⟩
+      · have hlt : key < k := lt_of_le_of_ne hle (Ne.symm heq)
+        obtain ⟨x, lt', h1, h2, h3, h4, h5, h6, h7, h8⟩ :=
+          splitForInsert_spec lvl hc key L lt high false hlvlt hslt
+            (LvPg_not_mem lvl lt L hlvlt key (by omega)) hclt
+        refine ⟨.cons x key val (.cons lt' k v tl), high, by simp [upsertNd, hle, heq, h1],
+          by simp, ?_, hlvh, ?_, ?_, hch⟩
+        · simp only [LvNd]; exact ⟨h5, hL, h6, hlvk, hlvtl⟩
+        · simp only [Nd.content, List.append_assoc, List.cons_append, h2]
+          refine (insertKV_mid key val _ _ h3 ?_).symm
+          intro k' hk'
+          simp only [List.map_append, List.map_cons, List.mem_append, List.mem_cons] at hk'
+          rcases hk' with hk' | hk' | hk' | hk'
+          · exact h4 k' hk'
+          · rw [hk']; exact hlt
+          · exact lt_trans hlt (hkrest k' (by
+              simp only [List.mem_append]; left; exact hk'))
+          · exact lt_trans hlt (hkrest k' (by
+              simp only [List.mem_append]; right; exact hk'))
+        · simp only [CacheOKNd]; exact ⟨h7, h8, hctl⟩
+    · have hlt : k < key := not_le.mp hle
+      obtain ⟨tl', high', h1, _, h3, h4, h5, h6, h7⟩ :=
+        upsertNd_spec lvl hc key val L hL tl high hlvtl hlvh (List.pairwise_append.mpr hsrest) hctl hch
+      refine ⟨.cons lt k v tl', high', by simp [upsertNd, hle, h1], by simp, ?_, h4, ?_, ?_, h7⟩
+      · simp only [LvNd]; exact ⟨hlvlt, hlvk, h3⟩
+      · simp only [Nd.content, List.append_assoc, List.cons_append, h5]
+        have : ∀ x ∈ (lt.content ++ [(k, v)]).map Prod.fst, x < key := by
+          intro x hx
+          simp only [List.map_append, List.map_cons, List.map_nil, List.mem_append, List.mem_cons,
+            List.not_mem_nil, or_false] at hx
+          rcases hx with hx | hx
+          · exact lt_trans (hltk x hx) hlt
+          · rw [hx]; exact hlt
+        have := insertKV_append_of_lt key val (lt.content ++ [(k, v)])
+          (tl.content ++ high.content) this
+        simpa using this.symm
+      · simp only [CacheOKNd]; exact ⟨hclt, h6⟩
+
+/-! ### `insert_intermediate_page` -/
+
+theorem insertIntermediate_spec (lvl : K → Nat) (hc : HashCfg K V D) (key : K) (val : V)
+    (child : Pg K V D) (hsome : child ≠ .none)
+    (hlv : LvPg lvl (lvl key) child) (hs : child.Sorted) (hco : CacheOKPg hc child) :
+    ∃ x rest, insertIntermediate child key (lvl key) val =
+        .ok (.some (lvl key) Option.none (.cons x key val .nil) rest) ∧
+      LvPg lvl (lvl key) x ∧ LvPg lvl (lvl key) rest ∧
+      x.content ++ (key, val) :: rest.content = insertKV key val child.content ∧
+      CacheOKPg hc x ∧ CacheOKPg hc rest := by
+  obtain ⟨x, rest, h1, h2, h3, h4, h5, h6, h7, h8⟩ :=
+    splitPg_spec lvl hc key (lvl key) child hlv hs
+      (LvPg_not_mem lvl child (lvl key) hlv key (Nat.le_refl _)) hco
+  have e2 := secondSplit_noop lvl "page.rs:590" "page.rs:591" "page.rs:592" (lvl key) key x h5 h3
+  refine ⟨x, rest, ?_, h5, h6, ?_, h7, h8⟩
+  · cases child with
+    | none => exact absurd rfl hsome
+    | some Lc cc nc hh =>
+      have hlv' := hlv
+      simp only [LvPg] at hlv'
+      obtain ⟨q1, q2, _, _⟩ := hlv'
+      have e0 : assertT "page.rs:525" (decide (Lc < lvl key)) = .ok () := assertT_ok (by simp [q1])
+      have e1 : assertT "page.rs:526" (!nc.isNil) = .ok () := by
+        cases nc with
+        | nil => exact absurd rfl q2
+        | cons => rfl
+      simp only [insertIntermediate, e0, e1, h1, e2, assertGte]
+      cases rest with
+      | none => rfl
+      | some Lr cr nr hr =>
+        simp only [LvPg] at h6
+        obtain ⟨r1, r2, _, _⟩ := h6
+        have e3 := assertKeyGt_last "page.rs:633" nr key r2 (fun k hk => h4 k (by simp [hk]))
+        have e4 : assertT "page.rs:634" (decide (Lr < lvl key)) = .ok () :=
+          assertT_ok (by simp [r1])
+        cases nr with
+        | nil => exact absurd rfl r2
+        | cons lt1 k1 v1 tl1 =>
+          simp only [Nd.isNil, Bool.false_eq_true, if_false, e3, e4]
+  · rw [h2]; exact (insertKV_mid key val _ _ h3 h4).symm
+
+/-! ### `Page::upsert` -/
+
+def Pg.level : Pg K V D → Nat
+  | .none => 0
+  | .some L _ _ _ => L
+
+/-- The statement proved about `upsertPg` on a page at or above the key's level. -/
+def UpOK (lvl : K → Nat) (hc : HashCfg K V D) (key : K) (val : V) (p : Pg K V D) : Prop :=
+  lvl key ≤ p.level →
+    ∃ n' h', upsertPg key (lvl key) val p = .ok (.some p.level Option.none n' h', .complete) ∧
+      n' ≠ .nil ∧ LvNd lvl p.level n' ∧ LvPg lvl p.level h' ∧
+      n'.content ++ h'.content = insertKV key val p.content ∧
+      CacheOKNd hc n' ∧ CacheOKPg hc h'
+
+omit [LinearOrder K] in
+theorem LvRoot_of_LvPg (lvl : K → Nat) (bound : Nat) (p : Pg K V D) (hp : p ≠ .none)
+    (hlv : LvPg lvl bound p) : LvRoot lvl p := by
+  cases p with
+  | none => exact absurd rfl hp
+  | some L c n h =>
+    simp only [LvPg] at hlv
+    simp only [LvRoot]
+    exact ⟨fun e => absurd e hlv.2.1, hlv.2.2⟩
+
+theorem childFinish_spec (lvl : K → Nat) (hc : HashCfg K V D) (key : K) (val : V) (L : Nat)
+    (hlt : lvl key < L) (slot : Pg K V D) (hlv : LvPg lvl L slot) (hs : slot.Sorted)
+    (hco : CacheOKPg hc slot) (ih : slot ≠ .none → UpOK lvl hc key val slot) :
+    ∃ p', childFinish key (lvl key) val slot (upsertPg key (lvl key) val slot) = .ok p' ∧
+      LvPg lvl L p' ∧ p'.content = insertKV key val slot.content ∧ CacheOKPg hc p' := by
+  cases slot with
+  | none =>
+    obtain ⟨n', h', e, q1, q2, q3, q4, q5, q6⟩ :=
+      upsertNd_spec lvl hc key val (lvl key) rfl (.nil : Nd K V D) .none
+        (by simp [LvNd]) (by simp [LvPg]) (by simp) (by simp [CacheOKNd]) (by simp [CacheOKPg])
+    refine ⟨.some (lvl key) Option.none n' h', by simp only [childFinish, e], ?_, ?_, ?_⟩
+    · simp only [LvPg]; exact ⟨hlt, q1, q2, q3⟩
+    · simpa [Pg.content, Nd.content] using q4
+    · simp only [CacheOKPg]; exact ⟨by simp, q5, q6⟩
+  | some Ls cs ns hs' =>
+    have hlv' := hlv
+    simp only [LvPg] at hlv'
+    obtain ⟨q1, q2, q3, q4⟩ := hlv'
+    by_cases hle : lvl key ≤ Ls
+    · obtain ⟨n', h', e, r1, r2, r3, r4, r5, r6⟩ := ih (by simp) hle
+      simp only [Pg.level] at e r2 r3
+      refine ⟨.some Ls Option.none n' h', by simp only [childFinish, e], ?_, ?_, ?_⟩
+      · simp only [LvPg]; exact ⟨q1, r1, r2, r3⟩
+      · simpa [Pg.content] using r4
+      · simp only [CacheOKPg]; exact ⟨by simp, r5, r6⟩
+    · have hgt : Ls < lvl key := by omega
+      have e : upsertPg key (lvl key) val (.some Ls cs ns hs') =
+          .ok (.some Ls cs ns hs', .insertIntermediate) := by
+        rw [upsertPg.eq_2]
+        simp only [if_neg (show ¬ lvl key < Ls by omega), if_neg (show ¬ lvl key = Ls by omega)]
+      have hlvk : LvPg lvl (lvl key) (.some Ls cs ns hs') := by
+        simp only [LvPg]; exact ⟨hgt, q2, q3, q4⟩
+      obtain ⟨x, rest, e2, r1, r2, r3, r4, r5⟩ :=
+        insertIntermediate_spec lvl hc key val (.some Ls cs ns hs') (by simp) hlvk hs hco
+      refine ⟨.some (lvl key) Option.none (.cons x key val .nil) rest,
+        by simp only [childFinish, e, e2], ?_, ?_, ?_⟩
+      · simp [LvPg, LvNd, hlt, r1, r2]
+      · simpa [Pg.content, Nd.content] using r3
+      · simp only [CacheOKPg, CacheOKNd]; exact ⟨by simp, ⟨r4, trivial⟩, r5⟩
+
+/-- What `upsertDescNd` returns under the invariants. -/
+def DescSpec (lvl : K → Nat) (hc : HashCfg K V D) (key : K) (val : V) (L : Nat) (n : Nd K V D) :
+    Option (Nd K V D) → Prop
+  | .none => ∀ k ∈ n.keys, k < key
+  | .some n' => n' ≠ .nil ∧ LvNd lvl L n' ∧ n'.content = insertKV key val n.content ∧
+      CacheOKNd hc n' ∧ ∃ k ∈ n.keys, key < k
+
+mutual
+theorem upsertPg_spec (lvl : K → Nat) (hlvl : ∀ k, lvl k < 255) (hc : HashCfg K V D) (key : K)
+    (val : V) : ∀ (p : Pg K V D), LvRoot lvl p → p.Sorted → CacheOKPg hc p → UpOK lvl hc key val p
+  | .none, hroot, _, _ => by simp [LvRoot] at hroot
+  | .some L c n h, hroot, hs, hco => by
+    intro hle
+    simp only [Pg.level] at hle ⊢
+    simp only [LvRoot] at hroot
+    obtain ⟨hnil, hlvn, hlvh⟩ := hroot
+    simp only [CacheOKPg] at hco
+    obtain ⟨_, hcn, hch⟩ := hco
+    have hs' := hs
+    simp only [Pg.Sorted, Pg.keys_some, List.pairwise_append] at hs'
+    obtain ⟨hsn, hsh, hnh⟩ := hs'
+    by_cases hlt : lvl key < L
+    · have hnn : n ≠ .nil := fun e => by have := (hnil e).1; omega
+      have hL : L ≠ 255 := by
+        cases n with
+        | nil => exact absurd rfl hnn
+        | cons lt k0 v0 tl =>
+          simp only [LvNd] at hlvn
+          have := hlvl k0; omega
+      have e0 : assertT "page.rs:233" (L != 255) = .ok () := assertT_ok (by simp [hL])
+      have e1 : assertT "page.rs:234" (!n.isNil) = .ok () := by
+        cases n with
+        | nil => exact absurd rfl hnn
+        | cons => rfl
+      obtain ⟨r, hr, hspec⟩ := upsertDescNd_spec lvl hlvl hc key val n L hlt hlvn hsn hcn
+      cases r with
+      | none =>
+        simp only [DescSpec] at hspec
+        obtain ⟨h', e2, q1, q2, q3⟩ := childFinish_spec lvl hc key val L hlt h hlvh hsh hch
+          (fun hne => upsertPg_spec lvl hlvl hc key val h (LvRoot_of_LvPg lvl L h hne hlvh) hsh hch)
+        refine ⟨n, h', ?_, hnn, hlvn, q1, ?_, hcn, q3⟩
+        · rw [upsertPg.eq_2]
+          simp only [if_pos hlt, e0, e1, hr, e2]
+        · simp only [Pg.content, q2]
+          exact (insertKV_append_of_lt key val _ _ hspec).symm
+      | some n' =>
+        simp only [DescSpec] at hspec
+        obtain ⟨q1, q2, q3, q4, k0, hk0, hk0lt⟩ := hspec
+        refine ⟨n', h, ?_, q1, q2, hlvh, ?_, q4, hch⟩
+        · rw [upsertPg.eq_2]
+          simp only [if_pos hlt, e0, e1, hr]
+        · simp only [Pg.content, q3]
+          refine (insertKV_append_of_gt key val _ _ ?_).symm
+          intro k hk
+          exact lt_trans hk0lt (hnh k0 hk0 k hk)
+    · have heq : lvl key = L := by omega
+      obtain ⟨n', h', e, q1, q2, q3, q4, q5, q6⟩ :=
+        upsertNd_spec lvl hc key val L heq n h hlvn hlvh (by simpa [Pg.Sorted] using hs) hcn hch
+      refine ⟨n', h', ?_, q1, q2, q3, by simpa [Pg.content] using q4, q5, q6⟩
+      rw [upsertPg.eq_2]
+      simp only [if_neg hlt, if_pos heq, e]
+theorem upsertDescNd_spec (lvl : K → Nat) (hlvl : ∀ k, lvl k < 255) (hc : HashCfg K V D) (key : K)
+    (val : V) : ∀ (n : Nd K V D) (L : Nat), lvl key < L → LvNd lvl L n → n.Sorted →
+      CacheOKNd hc n →
+      ∃ r, upsertDescNd key (lvl key) val n = .ok r ∧ DescSpec lvl hc key val L n r
+  | .nil, L, _, _, _, _ => ⟨.none, by simp [upsertDescNd], by simp [DescSpec]⟩
+  | .cons lt k v tl, L, hlt, hlv, hs, hco => by
+    simp only [LvNd] at hlv
+    obtain ⟨hlvlt, hlvk, hlvtl⟩ := hlv
+    simp only [Nd.Sorted, Nd.keys_cons, List.pairwise_append, List.pairwise_cons] at hs
+    obtain ⟨hslt, ⟨hktl, hstl⟩, hltk⟩ := hs
+    simp only [CacheOKNd] at hco
+    obtain ⟨hclt, hctl⟩ := hco
+    have hnek : key ≠ k := fun e => by rw [e] at hlt; omega
+    by_cases hle : key ≤ k
+    · have hkk : key < k := lt_of_le_of_ne hle hnek
+      have e0 : assertT "page.rs:244" (decide (key < k)) = .ok () := assertT_ok (by simp [hkk])
+      obtain ⟨lt', e1, q1, q2, q3⟩ := childFinish_spec lvl hc key val L hlt lt hlvlt hslt hclt
+        (fun hne => upsertPg_spec lvl hlvl hc key val lt (LvRoot_of_LvPg lvl L lt hne hlvlt)
+          hslt hclt)
+      refine ⟨.some (.cons lt' k v tl), ?_, ?_⟩
+      · rw [upsertDescNd.eq_2]
+        simp only [if_pos hle, e0, e1]
+      · simp only [DescSpec, LvNd, CacheOKNd]
+        refine ⟨by simp, ⟨q1, hlvk, hlvtl⟩, ?_, ⟨q3, hctl⟩, k, by simp, hkk⟩
+        simp only [Nd.content, q2]
+        refine (insertKV_append_of_gt key val _ _ ?_).symm
+        intro k' hk'
+        simp only [List.map_cons, List.mem_cons] at hk'
+        rcases hk' with hk' | hk'
+        · rw [hk']; exact hkk
+        · exact lt_trans hkk (hktl k' hk')
+    · have hkk : k < key := not_le.mp hle
+      have hpre : ∀ x ∈ (lt.content ++ [(k, v)]).map Prod.fst, x < key := by
+        intro x hx
+        simp only [List.map_append, List.map_cons, List.map_nil, List.mem_append, List.mem_cons,
+          List.not_mem_nil, or_false] at hx
+        rcases hx with hx | hx
+        · exact lt_trans (hltk x hx k (by simp)) hkk
+        · rw [hx]; exact hkk
+      obtain ⟨r, hr, hspec⟩ := upsertDescNd_spec lvl hlvl hc key val tl L hlt hlvtl hstl hctl
+      cases r with
+      | none =>
+        refine ⟨.none, ?_, ?_⟩
+        · rw [upsertDescNd.eq_2]
+          simp only [if_neg hle, hr]
+        · simp only [DescSpec] at hspec ⊢
+          intro k' hk'
+          simp only [Nd.keys_cons, List.mem_append, List.mem_cons] at hk'
+          rcases hk' with hk' | hk' | hk'
+          · exact hpre k' (by simp [Pg.keys] at hk'; simp [hk'])
+          · rw [hk']; exact hkk
+          · exact hspec k' hk'
+      | some tl' =>
+        refine ⟨.some (.cons lt k v tl'), ?_, ?_⟩
+        · rw [upsertDescNd.eq_2]
+          simp only [if_neg hle, hr]
+        · simp only [DescSpec] at hspec ⊢
+          obtain ⟨q1, q2, q3, q4, k0, hk0, hk0lt⟩ := hspec
+          simp only [LvNd, CacheOKNd]
+          refine ⟨by simp, ⟨hlvlt, hlvk, q2⟩, ?_, ⟨hclt, q4⟩, k0, by simp [hk0], hk0lt⟩
+          simp only [Nd.content, q3]
+          have := insertKV_append_of_lt key val (lt.content ++ [(k, v)]) tl.content hpre
+          simpa using this.symm
+end
+
+/-! ### the tree -/
 
 /-- Main invariant theorem: one `upsert` from any state satisfying `Inv`. -/
 theorem Tree.upsert_inv (lvl : K → Nat) (hlvl : ∀ k, lvl k < 255) (hc : HashCfg K V D)
     (t : Tree K V D) (hinv : Inv lvl hc t) (k : K) (v : V) :
     ∃ t', t.upsert k (lvl k) v = .ok t' ∧ Inv lvl hc t' ∧
       t'.root.content = insertKV k v t.root.content ∧ t'.rootHash = none := by
-  sorry
+  obtain ⟨root, rh⟩ := t
+  obtain ⟨hshape, hsorted, hcache, _⟩ := hinv
+  simp only at hshape hsorted hcache
+  cases root with
+  | none => simp [LvRoot] at hshape
+  | some L c n h =>
+    by_cases hle : lvl k ≤ L
+    · obtain ⟨n', h', e, q1, q2, q3, q4, q5, q6⟩ :=
+        upsertPg_spec lvl hlvl hc k v (.some L c n h) hshape hsorted hcache hle
+      simp only [Pg.level] at e q2 q3
+      refine ⟨⟨.some L Option.none n' h', Option.none⟩, by simp only [Tree.upsert, e], ?_, ?_, rfl⟩
+      · refine ⟨?_, ?_, ?_, ?_⟩
+        · simp only [LvRoot]; exact ⟨fun e => absurd e q1, q2, q3⟩
+        · have := insertKV_sorted k v _ hsorted
+          simp only [Pg.Sorted, Pg.keys, Pg.content]
+          rw [q4]; exact this
+        · simp only [CacheOKPg]; exact ⟨by simp, q5, q6⟩
+        · intro d hd; simp at hd
+      · simpa [Pg.content] using q4
+    · have hgt : L < lvl k := by omega
+      have e : upsertPg k (lvl k) v (.some L c n h) = .ok (.some L c n h, .insertIntermediate) := by
+        rw [upsertPg.eq_2]
+        simp only [if_neg (show ¬ lvl k < L by omega), if_neg (show ¬ lvl k = L by omega)]
+      simp only [LvRoot] at hshape
+      obtain ⟨hnil, hlvn, hlvh⟩ := hshape
+      cases n with
+      | nil =>
+        obtain ⟨hL0, hh⟩ := hnil rfl
+        subst hh
+        refine ⟨⟨.some (lvl k) Option.none (.cons .none k v .nil) .none, Option.none⟩, ?_, ?_, ?_,
+          rfl⟩
+        · simp only [Tree.upsert, e, Pg.nodesNil, Nd.isNil, if_true]
+        · refine ⟨?_, ?_, ?_, ?_⟩
+          · simp [LvRoot, LvNd, LvPg]
+          · simp [Pg.Sorted]
+          · simp [CacheOKPg, CacheOKNd]
+          · intro d hd; simp at hd
+        · simp [Pg.content, Nd.content, insertKV]
+      | cons lt k0 v0 tl =>
+        have hlvk : LvPg lvl (lvl k) (.some L c (.cons lt k0 v0 tl) h) := by
+          simp only [LvPg]; exact ⟨hgt, by simp, hlvn, hlvh⟩
+        obtain ⟨x, rest, e2, r1, r2, r3, r4, r5⟩ :=
+          insertIntermediate_spec lvl hc k v _ (by simp) hlvk hsorted hcache
+        refine ⟨⟨.some (lvl k) Option.none (.cons x k v .nil) rest, Option.none⟩, by
+          simp only [Tree.upsert, e, Pg.nodesNil, Nd.isNil, Bool.false_eq_true, if_false, e2],
+          ?_, ?_, rfl⟩
+        · refine ⟨?_, ?_, ?_, ?_⟩
+          · simp [LvRoot, LvNd, r1, r2]
+          · have := insertKV_sorted k v _ hsorted
+            rw [← r3] at this
+            simpa [Pg.Sorted, Pg.keys, Pg.content, Nd.content] using this
+          · simp only [CacheOKPg, CacheOKNd]; exact ⟨by simp, ⟨r4, trivial⟩, r5⟩
+          · intro d hd; simp at hd
+        · simpa [Pg.content, Nd.content] using r3
 
 theorem Tree.empty_inv (lvl : K → Nat) (hc : HashCfg K V D) :
     Inv lvl hc (Tree.empty : Tree K V D) ∧ (Tree.empty : Tree K V D).root.content = [] := by
-  sorry
+  refine ⟨⟨?_, ?_, ?_, ?_⟩, ?_⟩
+  · simp [Tree.empty, LvRoot, LvNd, LvPg]
+  · simp [Tree.empty, Pg.Sorted]
+  · simp [Tree.empty, CacheOKPg, CacheOKNd]
+  · intro d hd; simp [Tree.empty] at hd
+  · simp [Tree.empty, Pg.content, Nd.content]
 
 end Mst
